@@ -35,7 +35,7 @@ def run(chk, only=None):
     if only is not None:
         vecs = [only]
     else:
-        plans = [(2, 3, 2, 0), (3, 2, 2, 7)] if chk.tier == "quick" else [(2, 3, 2, 0), (2, 3, 3, 5), (3, 2, 2, 0), (3, 3, 2, 60)]
+        plans = [(2, 3, 2, 0), (3, 2, 2, 7)] if chk.tier == "quick" else [(2, 3, 2, 0), (2, 3, 3, 0), (3, 2, 2, 0), (3, 2, 3, 8), (2, 4, 2, 3)]
         vecs = []
         for g, q, np_, sample in plans:
             res = chk.tlc("CacheConc", cfg_text=CFG % (g, q, np_, sample, chk.seed % 60000), timeout=1800,
